@@ -429,7 +429,7 @@ class NpIntVec:
 class ParamGetAction(Contract):
     qualname = ACT + "ParameterisedActionSpace.get_action"
     callable_by_contract = False
-    tags = {"": ("C10", "C11", "C12", "C19", "C05")}
+    tags = {"": ("C10", "C11", "C12", "C19", "C05", "C07")}
 
     def variants(self):
         return ["list", "tuple"]
@@ -603,7 +603,7 @@ def action_fields_ok(sig, obj, kind, addr, spec):
 class LoadActionListBounded(Contract):
     qualname = ACT + "load_action_list"
     unbounded = False
-    tags = {"": ("C11", "C05", "C12", "C10", "C19")}
+    tags = {"": ("C11", "C05", "C12", "C10", "C19", "C07")}
 
     def variants(self):
         return [f"{e}/{p}" for e in range(len(E_SHAPES)) for p in range(len(P_SHAPES))]
